@@ -29,13 +29,6 @@ struct Context__MemorySlot *_ZNSt6vectorIN4bloc7Context10MemorySlotESaIS2_EEixEm
 /* void Symbol::upgrade(const Type&) / upgrade(const Decl&, level): retypes the symbol (symbol.cpp) */
 void _ZN4bloc6Symbol7upgradeERKNS_4TypeE(struct Symbol *this, const struct Type *t) { this->_base_Type._major = t->_major; this->_base_Type._minor = t->_minor; this->_base_Type._level = t->_level; }
 void _ZN4bloc6Symbol7upgradeERKNS_9TupleDecl4DeclEh(struct Symbol *this, const void *d, unsigned char level) { (void)d; this->_base_Type._major = ROWTYPE; this->_base_Type._level = level; }
-/* void Value::swap(Value& v) noexcept : exchange */
-void _ZN4bloc5Value4swapERS0_(struct Value *this, struct Value *v)
-{
-  struct Value t; t._flags = this->_flags; t._type._major = this->_type._major; t._type._minor = this->_type._minor; t._type._level = this->_type._level; t._value.i = this->_value.i;
-  this->_flags = v->_flags; this->_type._major = v->_type._major; this->_type._minor = v->_type._minor; this->_type._level = v->_type._level; this->_value.i = v->_value.i;
-  v->_flags = t._flags; v->_type._major = t._type._major; v->_type._minor = t._type._minor; v->_type._level = t._type._level; v->_value.i = t._value.i;
-}
 /* const TupleDecl::Decl& Tuple::tuple_decl() const (virtual) */
 struct TupleDecl__Decl g_tuple_decl;
 const struct TupleDecl__Decl *VCALL_Tuple_tuple_decl(const struct Tuple *t) { (void)t; return &g_tuple_decl; }
